@@ -152,12 +152,58 @@ pub struct LazyPlan {
     /// legal schedule (chunking / short reads / EINTR) of the per-class byte source
     #[serde(default)]
     pub io: IoPlan,
+    /// (k, call): the k-th class parse of this jar (read / visit, counted from 0) meets an I/O error at its `call`-th
+    /// read - once; the class is parsed from a stream, so the error arrives in the middle of the class reader
+    #[serde(default)]
+    pub read_fault: Option<(u32, u32)>,
+    /// non-zero: `names()` lists the entries in another order (drawn from this seed) than `entry_keys()`; the trait
+    /// promises no common order
+    #[serde(default)]
+    pub names_order: u64,
+}
+
+impl LazyPlan {
+    /// draws a plan: `span` = rough number of entry operations one run makes, `parses` = rough number of class parses
+    pub fn draw(z: &mut crate::rng::Rng, span: u64, parses: u64) -> LazyPlan {
+        let mut fail_at: Vec<u32> = (0..z.below(3)).map(|_| z.below(span.max(1)) as u32).collect();
+        fail_at.sort();
+        fail_at.dedup();
+        let read_fault = if z.chance(35) { Some((z.below(parses.max(1)) as u32, z.below(40) as u32)) } else { None };
+        if read_fault.is_some() && z.chance(60) {
+            fail_at.clear();
+        }
+        LazyPlan { fail_at, sticky: z.chance(30), io: if z.chance(50) { IoPlan::gen_legal(z) } else { IoPlan::plain() }, read_fault, names_order: if z.chance(35) { z.next() | 1 } else { 0 } }
+    }
+    pub fn faults(&self) -> usize {
+        self.fail_at.len() + self.read_fault.is_some() as usize
+    }
+    /// shrinker steps
+    pub fn smaller(&self) -> Vec<LazyPlan> {
+        let mut c = vec![];
+        for i in 0..self.fail_at.len() {
+            let mut q = self.clone();
+            q.fail_at.remove(i);
+            c.push(q);
+        }
+        if self.read_fault.is_some() {
+            c.push(LazyPlan { read_fault: None, ..self.clone() });
+        }
+        if self.names_order != 0 {
+            c.push(LazyPlan { names_order: 0, ..self.clone() });
+        }
+        if !self.io.is_plain() {
+            c.push(LazyPlan { io: IoPlan::plain(), ..self.clone() });
+        }
+        c
+    }
 }
 
 #[derive(Default)]
 pub struct LazyState {
+    pub parses: u32,
     pub ops: u32,
     pub failed: u32,
+    pub read_faults: u32,
     pub log: Digest,
     pub stats: Vec<IoStats>,
 }
@@ -199,8 +245,14 @@ impl LazyJar {
         st.sched.u64(s.log.0);
         st.events += s.ops as u64;
         st.probe_n("lazyjar.entry_operations", s.ops as u64);
-        if s.failed > 0 {
+        if s.failed > s.read_faults {
             st.fired(&[if self.plan.sticky { "entry_op_fails_from_now_on" } else { "entry_op_fails_once" }]);
+        }
+        if s.read_faults > 0 {
+            st.probe("lazyjar.io_error_inside_class_parse");
+        }
+        if self.plan.names_order != 0 {
+            st.probe("lazyjar.names_in_another_order");
         }
     }
 }
@@ -234,7 +286,11 @@ impl<'j> dukebox::storage::OpenedJar for LazyOpened<'j> {
         Ok(LazyEntry(self.0, key))
     }
     fn names(&self) -> impl Iterator<Item = (usize, &'_ str)> {
-        self.0.entries.iter().map(|e| e.0.as_str()).enumerate()
+        let mut idx: Vec<usize> = (0..self.0.entries.len()).collect();
+        if self.0.plan.names_order != 0 {
+            crate::rng::Rng::new(self.0.plan.names_order).shuffle(&mut idx);
+        }
+        idx.into_iter().map(|i| (i, self.0.entries[i].0.as_str()))
     }
     fn by_name(&mut self, name: &str) -> Result<Option<Self::Entry<'_>>> {
         self.0.tick(3)?;
@@ -264,13 +320,26 @@ impl<'j> dukebox::storage::JarEntry for LazyEntry<'j> {
 
 impl<'j> LazyClass<'j> {
     fn source(&self) -> SimReader {
-        let n = self.0.state.lock().unwrap_or_else(|e| e.into_inner()).ops as u64;
-        let plan = IoPlan { seed: self.0.plan.io.seed ^ n.wrapping_mul(0x9E37_79B9_7F4A_7C15), faults: vec![], ..self.0.plan.io.clone() };
+        let (n, k) = {
+            let mut s = self.0.state.lock().unwrap_or_else(|e| e.into_inner());
+            let k = s.parses;
+            s.parses += 1;
+            (s.ops as u64, k)
+        };
+        let faults = match self.0.plan.read_fault {
+            Some((which, call)) if which == k => vec![crate::simio::Fault::Eio { at_call: call, sticky: false }],
+            _ => vec![],
+        };
+        let plan = IoPlan { seed: self.0.plan.io.seed ^ n.wrapping_mul(0x9E37_79B9_7F4A_7C15), faults, ..self.0.plan.io.clone() };
         SimReader::new(self.1, &plan)
     }
     fn done(&self, r: SimReader) {
         let mut s = self.0.state.lock().unwrap_or_else(|e| e.into_inner());
         s.log.u64(r.log.0);
+        if r.stats.fired.contains(&"eio") {
+            s.failed += 1;
+            s.read_faults += 1;
+        }
         s.stats.push(r.stats.clone());
     }
 }
